@@ -35,7 +35,8 @@ Match(e) ==
 
 Consume == /\ l <= Len(T)
            /\ Match(T[l])
-           /\ Proj' = Logged(T[l])
+           \* (a refused acquire is logged after it returned; others may have moved on since it gave up)
+           /\ (T[l].e = "AcqRet" /\ T[l].res # "true") \/ Proj' = Logged(T[l])
            /\ l' = l + 1 /\ sil' = 0
 \* the line-level steps between two observable points
 Internal(t) == \/ (TLAcquire(t) /\ pc'[t] # "idle") \/ IncCounter(t) \/ OsOpen(t) \/ OsLock(t) \/ SetFd(t)
